@@ -184,9 +184,11 @@ Fixpoint strip_zeros (k : nat) (l : list N) : list N :=
   | S k', 0 :: r => strip_zeros k' r
   | _, _ => l
   end.
-(* formatNeedleIdCookie: hex of key(8) ++ cookie(4) without the leading zero bytes of the key *)
+(* formatNeedleIdCookie (working tree, repaired: `nonzero_index < NeedleIdSize-1`): hex of
+   key(8) ++ cookie(4) without the leading zero bytes of the key; at most NeedleIdSize-1 = 7
+   bytes are dropped, so at least one key byte is always printed *)
 Definition format_key_cookie (key cookie : N) : list N :=
-  hex_of_bytes (strip_zeros 8 (be_encode 8 key ++ be_encode 4 cookie)).
+  hex_of_bytes (strip_zeros 7 (be_encode 8 key ++ be_encode 4 cookie)).
 
 (* ParseNeedleIdCookie *)
 Definition parse_key_cookie (s : list N) : option (N * N) :=
@@ -335,9 +337,8 @@ Definition sb_bytes_checked (s : super_block) : option (list N) :=
    The model identifies the two: both are sb_extra = []. *)
 
 (* ---------- trigger sets of the known findings ---------- *)
-(* finding 0: formatNeedleIdCookie strips ALL eight key bytes when the key is 0, leaving the 8
-   cookie digits only; ParseNeedleIdCookie rejects that string ("KeyHash is too short") *)
-Definition trig_key0 (key : N) : bool := key =? 0.
+(* (former finding 0, needle key 0 printed without key digits, is repaired in the working tree:
+   see format_key_cookie) *)
 (* finding 1: LoadTTLFromUint32 looks at the low 16 bits only and has no error path: an integer
    that is not the ToUint32 of any TTL (bits above 16 set, or count byte 0 with a unit) is decoded
    all the same.  Exactly the integers x with ToUint32(LoadTTLFromUint32 x) <> x. *)
